@@ -38,7 +38,7 @@ def file_cfg(rng, tier, prop):
            "sweep": faults and rng.random() < (0.15 if tier == "quick" else 0.5),
            "explicit_format": rng.random() < 0.3, "c20_rate": {"C19": 0.15, "C20": 0.7, "C15": 0.3}[prop]}
     if rng.random() < 0.06:
-        cfg["max_len"], cfg["max_rank"], cfg["big"] = rng.randint(6, 24), min(cfg["max_rank"], 2), True
+        cfg["max_len"], cfg["max_rank"], cfg["big"] = rng.choice([rng.randint(6, 24)] * 4 + [rng.randint(101, 130)]), min(cfg["max_rank"], 2), True
     return cfg
 
 
